@@ -4,6 +4,30 @@
   Property theorems only.  `S = Spec.dwarfStructs ⟨le, 32, dasz, dver⟩` is the struct bundle
   `DWARFInfo.structs` (32-bit format, the container's default address size); by
   `Props/TieC13.lean` it is the bundle regenerated from the code.  `env` is arbitrary.
+
+  PROVED (kernel-checked, no extra hypothesis beyond the well-formedness of the encoded object):
+    * `.debug_aranges`: `aranges_entries_exact`, `aranges_init_exact`, `aranges_sorted`;
+      `lookup_exact` under `noShadow` (needed: `lookup_shadowed_counterexample`), its declarative
+      reading `lookup_some_iff` / `lookup_none_iff`, `lookup_exact_disjoint`, `lookup_empty`.
+    * name tables: `names_exact`; `names_exact_ordered` — the exact ordered content for ANY entry
+      list incl. names repeated within and across sets (keys in first-occurrence order, value of
+      the last occurrence; `OrderedLastWins` determines it uniquely: `ordered_last_wins_unique`);
+      `names_mapping_ordered`, and the older `names_distinct`, `names_value_last`.
+    * unit lookup, abstract (`Chain`/`Inv`): `cu_containing_exact`, `cu_containing_total`,
+      `cu_at_exact`, `lut_entry_exact`, `cache_inv_initial`, `bisect_right_sorted`.
+    * unit lookup on encoded sections, EVERY version 2–5, all six DWARF 5 unit types, both DWARF
+      formats, units mixed freely: `chain_encoded`, `cu_containing_encoded`, `cu_at_encoded`,
+      `lut_entry_encoded` (hypothesis `hUT` on the enum decoder, discharged for the regenerated
+      decoder: the `_gen` forms), `unit_containing_defined` (every offset 0..size-1 is covered).
+      The superseded version-2–4 forms stay as `…_encoded_partial`.
+    * address → range table → unit (`addr_to_unit`) and the tables that give nothing:
+      `aranges_absent`, `aranges_empty_resolves_nothing`, `cu_containing_without_table`,
+      `cu_lookup_no_info`.
+  CORRESPONDENCE ONLY (model = code by differential runs, no theorem): the hand-written models
+  themselves (the tie for control flow); malformed / truncated tables and every error class
+  (`ar_raw`, `nm_raw`, `cu_raw`); `need_empty=True`; shadowed range tables (outside `noShadow`);
+  name tables with ill-formed UTF-8; 64-bit-format range/name tables (not in the quantifier);
+  DIE decoding behind `get_DIE_from_lut_entry` (C04); the ELF container glue.
 -/
 import PyElf.Spec.DwarfLookup
 import PyElf.Spec.DwarfStructs
@@ -11,6 +35,10 @@ import PyElf.Model.DwarfLookup
 import PyElf.Proofs.DwarfLookup
 import PyElf.Proofs.DwarfTables
 import PyElf.Proofs.DwarfUnits
+import PyElf.Proofs.DieHeaders
+import PyElf.Proofs.DwarfUnitsAll
+import PyElf.Proofs.DwarfNameOrder
+import PyElf.Proofs.DwarfResolve
 import PyElf.Props.TieC13
 namespace PyElf.Props.C13
 open PyElf PyElf.Spec.Lookup PyElf.Model.Lookup PyElf.Proofs.Lookup
@@ -122,6 +150,44 @@ theorem names_value_last (ps : List (Bytes × Nat × Nat)) (k : Bytes) :
     assocGet? (mappingOf ps) k = assocGet? ps.reverse k :=
   assocGet_mappingOf ps k
 
+/-- THE EXACT ORDERED CONTENT, repeated names included (any entry list, any number of sets, names
+    repeated within a set and across sets): the mapping `NameLUT` builds from the encoding is the
+    item list `m` whose keys are the distinct encoded names in order of FIRST occurrence, each
+    carrying the (unit offset, absolute entry offset) of its LAST occurrence — Python `dict`
+    overwrite semantics — together with every set header in encoded order.
+    `OrderedLastWins` (Spec/DwarfNameOrder.lean) says this without reference to any algorithm and
+    determines `m` uniquely (`ordered_last_wins_unique`); `orderedLastWins` is its computable form. -/
+theorem names_exact_ordered (env : Env) (le : Bool) (dasz dver : Nat) (sets : List NameSet)
+    (hwf : ∀ s ∈ sets, wfNameSet le s = true) :
+    ∃ m, nameGetEntries env (Spec.dwarfStructs ⟨le, 32, dasz, dver⟩) 32 (encNameSets le sets) (encNameSets le sets).length
+          = .ok (m, sets.map (nameHdrVal le))
+      ∧ OrderedLastWins (namePairs sets) m ∧ m = orderedLastWins (namePairs sets) := by
+  refine ⟨mappingOf (namePairs sets), names_exact env le dasz dver sets hwf, ?_, mappingOf_eq_orderedLastWins _⟩
+  rw [mappingOf_eq_orderedLastWins]
+  exact orderedLastWins_spec _
+
+/-- on any pair list: successive `d[name] = value` yields exactly the declarative content -/
+theorem names_mapping_ordered (ps : List (Bytes × Nat × Nat)) :
+    mappingOf ps = orderedLastWins ps ∧ OrderedLastWins ps (mappingOf ps) := by
+  refine ⟨mappingOf_eq_orderedLastWins ps, ?_⟩
+  rw [mappingOf_eq_orderedLastWins]; exact orderedLastWins_spec ps
+
+/-- the predicate pins the item list down completely -/
+theorem ordered_last_wins_unique (ps m : List (Bytes × Nat × Nat)) : OrderedLastWins ps m ↔ m = orderedLastWins ps :=
+  orderedLastWins_iff ps m
+
+/-- non-vacuity and a worked case: `main` occurs twice in the first set and again in the second,
+    `x` occurs in both sets; the sets are well-formed, and the content is `main`, `x`, `y` (first
+    occurrence order) with the values of the last occurrences -/
+example :
+    let sets : List NameSet :=
+      [⟨2, 0x10, 0x40, [⟨11, [0x6d, 0x61, 0x69, 0x6e]⟩, ⟨12, [0x78]⟩, ⟨13, [0x6d, 0x61, 0x69, 0x6e]⟩]⟩,
+       ⟨2, 0x50, 0x40, [⟨21, [0x79]⟩, ⟨22, [0x78]⟩, ⟨23, [0x6d, 0x61, 0x69, 0x6e]⟩]⟩]
+    (∀ s ∈ sets, wfNameSet true s = true) ∧
+      orderedLastWins (namePairs sets)
+        = [([0x6d, 0x61, 0x69, 0x6e], 0x50, 0x50 + 23), ([0x78], 0x50, 0x50 + 22), ([0x79], 0x50, 0x50 + 21)] := by
+  decide
+
 /-! ### unit lookup in `.debug_info` -/
 
 /-- `get_CU_containing(x)`: for every cache state reachable by lookups (`Inv`), and every unit `c`
@@ -171,9 +237,10 @@ theorem bisect_right_sorted (keys : List Nat) (x : Nat) (hs : keys.Pairwise (· 
 
 /-- An encoded sequence of well-formed units is a chain for the model's `_parse_CU_at_offset`
     (run with the Spec bundles): the unit-header round trip.
-    PARTIAL: proved for unit versions 2–4, both DWARF formats.  The full statement is the same
-    without `u.version < 5` (version 5 headers with the six unit types go through the
-    `ENUM_DW_UT` switch of `Dwarf_CU_header`); version 5 is covered by correspondence only. -/
+    PARTIAL: unit versions 2–4, both DWARF formats.  SUPERSEDED by the full `chain_encoded` below
+    (same statement without `u.version < 5`: version 5 headers with the six unit types go through
+    the `ENUM_DW_UT` switch of `Dwarf_CU_header`); kept under its `_partial` name, as are the three
+    theorems built on it. -/
 theorem chain_encoded_partial (enumDecode : String → Int → Option String) (le : Bool) (dasz : Nat)
     (us : List InfoUnit) (hwf : ∀ u ∈ us, wfUnit le u = true ∧ u.version < 5) :
     Chain (specP enumDecode le dasz (encUnits le us)) (encUnits le us).length 0 (cusOf le 0 us) :=
@@ -223,6 +290,237 @@ theorem lut_entry_encoded_partial (enumDecode : String → Int → Option String
   have h5 := (hwf u (unitStarts_version us 0 o u hm)).2
   exact lut_entry_exact (c := cuOf le o u) (fun o c h => parseCU_offset o c h)
     (chain_encoded_partial enumDecode le dasz us hwf) hinv (mem_cusOf us 0 o u hm) (cuOf_size h5) h1 h2
+
+/-! ### unit lookup on encoded `.debug_info` sections: every supported version (2–5)
+
+  The FULL forms of the four `_partial` theorems above: no restriction on the unit version.  DWARF 5
+  headers go through the `ENUM_DW_UT` switch of `Dwarf_CU_header` with all six unit types (compile,
+  type, partial, skeleton, split_compile, split_type), both DWARF formats, mixed freely with
+  version 2–4 units in one section.  The unit-header round trip is C04's (`Proofs/DieHeaders.lean`:
+  `parseCU_encoded_all`, `chain_encoded_all`, `cuOf_size_all`), imported, not copied.
+
+  `hUT` says that the enum decoder names the six unit types as DWARF 5 table 7.2 does; the
+  regenerated decoder does (`TieC13.enum_ut`), which gives the hypothesis-free `_gen` forms. -/
+
+/-- An encoded sequence of well-formed units (versions 2–5, any v5 unit type, both formats) is a
+    chain for the model's `_parse_CU_at_offset`. -/
+theorem chain_encoded (enumDecode : String → Int → Option String)
+    (hUT : ∀ k : Nat, 1 ≤ k → k ≤ 6 → enumDecode "ENUM_DW_UT" k = utName k) (le : Bool) (dasz : Nat)
+    (us : List InfoUnit) (hwf : ∀ u ∈ us, wfUnit le u = true) :
+    Chain (specP enumDecode le dasz (encUnits le us)) (encUnits le us).length 0 (cusOf le 0 us) :=
+  Proofs.C04.chain_encoded_all hUT us 0 hwf (by simp) (by simp)
+
+/-- every offset of the section, every reachable cache state: `get_CU_containing` returns the unit
+    whose extent contains the offset (its start, first-DIE offset, format and header as encoded) -/
+theorem cu_containing_encoded (enumDecode : String → Int → Option String)
+    (hUT : ∀ k : Nat, 1 ≤ k → k ≤ 6 → enumDecode "ENUM_DW_UT" k = utName k) (le : Bool) (dasz : Nat)
+    (us : List InfoUnit) (hwf : ∀ u ∈ us, wfUnit le u = true) (st : CUCache)
+    (hinv : Inv (specP enumDecode le dasz (encUnits le us)) (cusOf le 0 us) st) (x o : Nat) (u : InfoUnit)
+    (hu : unitContaining le us x = some (o, u)) :
+    ∃ st', getCUContaining (specP enumDecode le dasz (encUnits le us)) (encUnits le us).length st x
+        = (.ok (cuOf le o u), st') ∧ Inv (specP enumDecode le dasz (encUnits le us)) (cusOf le 0 us) st' := by
+  have hm := List.mem_of_find?_eq_some hu
+  have hp := List.find?_some hu
+  simp only [decide_eq_true_eq] at hp
+  exact cu_containing_exact (fun o c h => parseCU_offset o c h) (chain_encoded enumDecode hUT le dasz us hwf) hinv
+    (mem_cusOf us 0 o u hm) Proofs.C04.cuOf_size_all hp.1 hp.2
+
+/-- … and every offset of the section IS inside exactly such a unit: the hypothesis `hu` of
+    `cu_containing_encoded` is satisfiable for all `x` in `0 .. size-1` (and for no other `x`) -/
+theorem unit_containing_defined (le : Bool) (us : List InfoUnit) (x : Nat) :
+    x < (encUnits le us).length ↔ ∃ o u, unitContaining le us x = some (o, u) :=
+  unitContaining_isSome_iff le us x
+
+/-- an offset-exact lookup returns the unit starting there -/
+theorem cu_at_encoded (enumDecode : String → Int → Option String)
+    (hUT : ∀ k : Nat, 1 ≤ k → k ≤ 6 → enumDecode "ENUM_DW_UT" k = utName k) (le : Bool) (dasz : Nat)
+    (us : List InfoUnit) (hwf : ∀ u ∈ us, wfUnit le u = true) (st : CUCache)
+    (hinv : Inv (specP enumDecode le dasz (encUnits le us)) (cusOf le 0 us) st) (x o : Nat) (u : InfoUnit)
+    (hu : unitAt le us x = some (o, u)) :
+    ∃ st', getCUAt (specP enumDecode le dasz (encUnits le us)) (encUnits le us).length st x
+        = (.ok (cuOf le o u), st') ∧ Inv (specP enumDecode le dasz (encUnits le us)) (cusOf le 0 us) st' := by
+  have hm := List.mem_of_find?_eq_some hu
+  have hp := List.find?_some hu
+  simp only [beq_iff_eq] at hp
+  subst hp
+  exact cu_at_exact (c := cuOf le o u) (fun o c h => parseCU_offset o c h)
+    (chain_encoded enumDecode hUT le dasz us hwf) hinv (mem_cusOf us 0 o u hm)
+
+/-- a name-table entry that names a unit start and an offset between that unit's first DIE and
+    its end leads to that unit and that offset -/
+theorem lut_entry_encoded (enumDecode : String → Int → Option String)
+    (hUT : ∀ k : Nat, 1 ≤ k → k ≤ 6 → enumDecode "ENUM_DW_UT" k = utName k) (le : Bool) (dasz : Nat)
+    (us : List InfoUnit) (hwf : ∀ u ∈ us, wfUnit le u = true) (st : CUCache)
+    (hinv : Inv (specP enumDecode le dasz (encUnits le us)) (cusOf le 0 us) st) (x d o : Nat) (u : InfoUnit)
+    (hu : unitAt le us x = some (o, u)) (h1 : (unitObs le o u).dieOff ≤ d) (h2 : d < o + unitSize le u) :
+    ∃ st', getDIEFromLutEntry (specP enumDecode le dasz (encUnits le us)) (encUnits le us).length st x d
+        = (.ok (cuOf le o u, d), st') ∧ Inv (specP enumDecode le dasz (encUnits le us)) (cusOf le 0 us) st' := by
+  have hm := List.mem_of_find?_eq_some hu
+  have hp := List.find?_some hu
+  simp only [beq_iff_eq] at hp
+  subst hp
+  exact lut_entry_exact (c := cuOf le o u) (fun o c h => parseCU_offset o c h)
+    (chain_encoded enumDecode hUT le dasz us hwf) hinv (mem_cusOf us 0 o u hm) Proofs.C04.cuOf_size_all h1 h2
+
+/-- non-vacuity of `hUT`: the decoder regenerated from the code satisfies it -/
+example : ∀ k : Nat, 1 ≤ k → k ≤ 6 → Model.genEnumDecode "ENUM_DW_UT" k = utName k := TieC13.enum_ut
+
+/-- non-vacuity of `hwf`: one section mixing a v2 unit, all six v5 unit types (32- and 64-bit
+    format) and a v4 unit is well-formed -/
+example :
+    ∀ u ∈ ([⟨false, 2, 1, 0, 4, 0, 0, [1]⟩, ⟨false, 5, 1, 0, 8, 0, 0, [1, 0]⟩, ⟨true, 5, 2, 7, 4, 0x1122334455667788, 0x21, []⟩,
+            ⟨false, 5, 3, 0, 4, 0, 0, [1]⟩, ⟨true, 5, 4, 0, 8, 0xFFFFFFFFFFFFFFFF, 0, [1]⟩,
+            ⟨false, 5, 5, 0, 4, 1, 0, []⟩, ⟨false, 5, 6, 0, 8, 2, 0xFFFFFFFF, [1, 1, 0]⟩, ⟨true, 4, 1, 3, 8, 0, 0, [1]⟩] : List InfoUnit),
+      wfUnit true u = true := by decide
+
+/-! the same four with the regenerated enum decoder: no hypothesis besides well-formedness -/
+
+theorem chain_encoded_gen (le : Bool) (dasz : Nat) (us : List InfoUnit) (hwf : ∀ u ∈ us, wfUnit le u = true) :
+    Chain (specP Model.genEnumDecode le dasz (encUnits le us)) (encUnits le us).length 0 (cusOf le 0 us) :=
+  chain_encoded _ TieC13.enum_ut le dasz us hwf
+
+theorem cu_containing_encoded_gen (le : Bool) (dasz : Nat) (us : List InfoUnit) (hwf : ∀ u ∈ us, wfUnit le u = true)
+    (st : CUCache) (hinv : Inv (specP Model.genEnumDecode le dasz (encUnits le us)) (cusOf le 0 us) st) (x o : Nat)
+    (u : InfoUnit) (hu : unitContaining le us x = some (o, u)) :
+    ∃ st', getCUContaining (specP Model.genEnumDecode le dasz (encUnits le us)) (encUnits le us).length st x
+        = (.ok (cuOf le o u), st') ∧ Inv (specP Model.genEnumDecode le dasz (encUnits le us)) (cusOf le 0 us) st' :=
+  cu_containing_encoded _ TieC13.enum_ut le dasz us hwf st hinv x o u hu
+
+theorem cu_at_encoded_gen (le : Bool) (dasz : Nat) (us : List InfoUnit) (hwf : ∀ u ∈ us, wfUnit le u = true)
+    (st : CUCache) (hinv : Inv (specP Model.genEnumDecode le dasz (encUnits le us)) (cusOf le 0 us) st) (x o : Nat)
+    (u : InfoUnit) (hu : unitAt le us x = some (o, u)) :
+    ∃ st', getCUAt (specP Model.genEnumDecode le dasz (encUnits le us)) (encUnits le us).length st x
+        = (.ok (cuOf le o u), st') ∧ Inv (specP Model.genEnumDecode le dasz (encUnits le us)) (cusOf le 0 us) st' :=
+  cu_at_encoded _ TieC13.enum_ut le dasz us hwf st hinv x o u hu
+
+theorem lut_entry_encoded_gen (le : Bool) (dasz : Nat) (us : List InfoUnit) (hwf : ∀ u ∈ us, wfUnit le u = true)
+    (st : CUCache) (hinv : Inv (specP Model.genEnumDecode le dasz (encUnits le us)) (cusOf le 0 us) st) (x d o : Nat)
+    (u : InfoUnit) (hu : unitAt le us x = some (o, u)) (h1 : (unitObs le o u).dieOff ≤ d) (h2 : d < o + unitSize le u) :
+    ∃ st', getDIEFromLutEntry (specP Model.genEnumDecode le dasz (encUnits le us)) (encUnits le us).length st x d
+        = (.ok (cuOf le o u, d), st') ∧ Inv (specP Model.genEnumDecode le dasz (encUnits le us)) (cusOf le 0 us) st' :=
+  lut_entry_encoded _ TieC13.enum_ut le dasz us hwf st hinv x d o u hu h1 h2
+
+/-! ### address → range table → unit, and tables that give nothing (absent, empty, no range)
+
+  `unitForAddr` (Model/DwarfLookupInfo.lean) is the idiom the docstrings of `get_CU_at` and
+  `get_CU_containing` describe: `off = get_aranges().cu_offset_at_addr(addr)`, then
+  `get_CU_containing(off)` (`byC = true`) or `get_CU_at(off)` (`byC = false`); the library has no
+  function of its own for it, and no fall-back inside `get_CU_containing` (which never consults
+  the range table).  Against the Spec: the answer is the unit that starts at the offset of the
+  encoded range containing the address, and nothing when no range contains it. -/
+
+/-- For every encoded range table (well-formed, shadow-free) whose unit offsets are starts of
+    units of the encoded `.debug_info` section (units of any version 2–5), every reachable cache
+    state and every address: the table object exists, and resolving the address gives `none` when
+    `cuOffsetAt` (the Spec's "range containing the address", see `lookup_some_iff` /
+    `lookup_none_iff`) is `none` — the cache untouched — and otherwise the unit starting at that
+    offset, by either lookup function, with a consistent cache. -/
+theorem addr_to_unit (env : Env) (enumDecode : String → Int → Option String)
+    (hUT : ∀ k : Nat, 1 ≤ k → k ≤ 6 → enumDecode "ENUM_DW_UT" k = utName k) (le : Bool) (dasz dver : Nat)
+    (sets : List ARSet) (us : List InfoUnit) (hwfS : wfSets le 0 sets = true)
+    (hns : (entriesOf le 0 sets).Pairwise noShadow) (hwfU : ∀ u ∈ us, wfUnit le u = true)
+    (hstarts : ∀ e ∈ entriesOf le 0 sets, ∃ u, unitAt le us e.infoOff = some (e.infoOff, u))
+    (st : CUCache) (hinv : Inv (specP enumDecode le dasz (encUnits le us)) (cusOf le 0 us) st) (byC : Bool) (a : Nat) :
+    ∃ t, getAranges env (Spec.dwarfStructs ⟨le, 32, dasz, dver⟩) (some (encSets le 0 sets)) = .ok (some t) ∧
+      match cuOffsetAt (entriesOf le 0 sets) a with
+      | none => unitForAddr byC (some t) (specP enumDecode le dasz) (some (encUnits le us)) st a = (.ok none, st)
+      | some o => ∃ u st', unitAt le us o = some (o, u) ∧
+          unitForAddr byC (some t) (specP enumDecode le dasz) (some (encUnits le us)) st a
+            = (.ok (some (cuOf le o u)), st') ∧
+          Inv (specP enumDecode le dasz (encUnits le us)) (cusOf le 0 us) st' := by
+  have hPo : ∀ o c, specP enumDecode le dasz (encUnits le us) o = .ok c → c.cuOffset = o :=
+    fun o c h => parseCU_offset o c h
+  have hch := chain_encoded enumDecode hUT le dasz us hwfU
+  have hmem : ∀ e ∈ entriesOf le 0 sets, ∃ c ∈ cusOf le 0 us, c.cuOffset = e.infoOff := by
+    intro e he
+    obtain ⟨u, hu⟩ := hstarts e he
+    exact ⟨cuOf le e.infoOff u, mem_cusOf us 0 _ u (List.mem_of_find?_eq_some hu), rfl⟩
+  refine ⟨⟨pySortBy (·.begin) (entriesOf le 0 sets), (pySortBy (·.begin) (entriesOf le 0 sets)).map (·.begin)⟩, ?_, ?_⟩
+  · simp only [getAranges, aranges_init_exact env le dasz dver sets hwfS, sortByBegin_eq, bind, Except.bind, pure,
+      Except.pure]
+  · have h := unitForAddr_spec (P := specP enumDecode le dasz) hPo hch hinv hns hmem byC a
+    cases hr : cuOffsetAt (entriesOf le 0 sets) a with
+    | none => rw [hr] at h; exact h
+    | some o =>
+      rw [hr] at h
+      obtain ⟨c, hc, hco, st', hres, hinv'⟩ := h
+      obtain ⟨e, he, _, heo⟩ := (cuOffsetAt_some_iff hns a o).1 hr
+      obtain ⟨u, hu⟩ := hstarts e he
+      rw [heo] at hu
+      have hc' := mem_cusOf us 0 o u (List.mem_of_find?_eq_some hu)
+      have e1 := (chain_mem hPo _ 0 hch c hc).2.1
+      have e2 := (chain_mem hPo _ 0 hch _ hc').2.1
+      rw [hco] at e1
+      have : c = cuOf le o u := by
+        have e2' : specP enumDecode le dasz (encUnits le us) o = .ok (cuOf le o u) := e2
+        rw [e1] at e2'; injection e2'
+      subst this
+      exact ⟨u, st', hu, hres, hinv'⟩
+
+/-- non-vacuity of `addr_to_unit`: two units (a v5 skeleton unit and a v4 unit starting at offset
+    20) and a range table naming both starts -/
+example :
+    let us : List InfoUnit := [⟨false, 5, 4, 0, 4, 7, 0, []⟩, ⟨false, 4, 1, 0, 8, 0, 0, [1]⟩]
+    let sets : List ARSet := [⟨2, 0, 4, [⟨0x1000, 0x20⟩], 0, []⟩, ⟨2, 20, 8, [⟨0x2000, 8⟩, ⟨0x1020, 8⟩], 0, []⟩]
+    wfSets true 0 sets = true ∧ (entriesOf true 0 sets).Pairwise noShadow ∧ (∀ u ∈ us, wfUnit true u = true) ∧
+      (∀ e ∈ entriesOf true 0 sets, (unitAt true us e.infoOff).map (·.1) = some e.infoOff) := by
+  decide
+
+/-- no `.debug_aranges` section: `get_aranges()` is `None`, and there is nothing to resolve -/
+theorem aranges_absent (env : Env) (S : DwarfStructs) (byC : Bool) (P : Bytes → Nat → R CU) (info : Option Bytes)
+    (st : CUCache) (a : Nat) :
+    getAranges env S none = .ok none ∧ unitForAddr byC none P info st a = (.ok none, st) := ⟨rfl, rfl⟩
+
+/-- a table without any tuple (no sets, or only empty sets): every address resolves to nothing -/
+theorem aranges_empty_resolves_nothing (env : Env) (le : Bool) (dasz dver : Nat) (sets : List ARSet)
+    (hwfS : wfSets le 0 sets = true) (hempty : ∀ s ∈ sets, s.tuples = []) (byC : Bool) (P : Bytes → Nat → R CU)
+    (info : Option Bytes) (st : CUCache) (a : Nat) :
+    ∃ t, getAranges env (Spec.dwarfStructs ⟨le, 32, dasz, dver⟩) (some (encSets le 0 sets)) = .ok (some t) ∧
+      t.cuOffsetAtAddr a = .ok none ∧ unitForAddr byC (some t) P info st a = (.ok none, st) := by
+  have hes : ∀ (sets : List ARSet) (off : Nat), (∀ s ∈ sets, s.tuples = []) → entriesOf le off sets = [] := by
+    intro sets
+    induction sets with
+    | nil => intro _ _; rfl
+    | cons s ss ih =>
+      intro off h
+      simp [entriesOf, entriesOfSet, h s List.mem_cons_self, ih _ (fun x hx => h x (List.mem_cons_of_mem _ hx))]
+  refine ⟨⟨[], []⟩, ?_, lookup_empty a, ?_⟩
+  · simp only [getAranges, aranges_init_exact env le dasz dver sets hwfS, hes sets 0 hempty, bind, Except.bind, pure,
+      Except.pure]
+    rfl
+  · simp only [unitForAddr, lookup_empty a]
+
+/-- non-vacuity: a table of two empty sets (the second with padding fill and trailing bytes) -/
+example :
+    let sets : List ARSet := [⟨2, 0, 4, [], 0, []⟩, ⟨2, 9, 8, [], 0xAA, [1, 2]⟩]
+    wfSets false 0 sets = true ∧ ∀ s ∈ sets, s.tuples = [] := by decide
+
+/-- … while `get_CU_containing` does not depend on the range table at all: with the table absent
+    or empty it still returns, for every offset of the section, the unit whose extent contains it
+    (the scan a consumer falls back to), and without a `.debug_info` section both unit lookups
+    raise `DWARFError` -/
+theorem cu_containing_without_table (enumDecode : String → Int → Option String)
+    (hUT : ∀ k : Nat, 1 ≤ k → k ≤ 6 → enumDecode "ENUM_DW_UT" k = utName k) (le : Bool) (dasz : Nat)
+    (us : List InfoUnit) (hwf : ∀ u ∈ us, wfUnit le u = true) (st : CUCache)
+    (hinv : Inv (specP enumDecode le dasz (encUnits le us)) (cusOf le 0 us) st) (x : Nat)
+    (hx : x < (encUnits le us).length) :
+    ∃ o u st', unitContaining le us x = some (o, u) ∧
+      getCUContainingI (specP enumDecode le dasz) (some (encUnits le us)) st x = (.ok (cuOf le o u), st') ∧
+      Inv (specP enumDecode le dasz (encUnits le us)) (cusOf le 0 us) st' := by
+  obtain ⟨o, u, hu⟩ := (unit_containing_defined le us x).1 hx
+  obtain ⟨st', h, hinv'⟩ := cu_containing_encoded enumDecode hUT le dasz us hwf st hinv x o u hu
+  exact ⟨o, u, st', hu, h, hinv'⟩
+
+/-- non-vacuity: the fresh cache satisfies `hinv` (`cache_inv_initial`), and offset 40 lies in the
+    second unit of a well-formed two-unit section (a v5 split-type unit of 28 bytes, then a 64-bit v2 unit) -/
+example :
+    let us : List InfoUnit := [⟨false, 5, 6, 0, 8, 2, 0xFFFFFFFF, [1, 1, 0, 0]⟩, ⟨true, 2, 1, 0, 4, 0, 0, [1]⟩]
+    (∀ u ∈ us, wfUnit true u = true) ∧ 40 < (encUnits true us).length ∧
+      (unitContaining true us 40).map (·.1) = some 28 := by decide
+
+theorem cu_lookup_no_info (P : Bytes → Nat → R CU) (st : CUCache) (x : Nat) :
+    getCUContainingI P none st x = (.error .dwarfError, st) ∧ getCUAtI P none st x = (.error .dwarfError, st) :=
+  ⟨rfl, rfl⟩
 
 /-- the unit object of the model is the observation the Spec prescribes -/
 theorem cuOf_obs (le : Bool) (o : Nat) (u : InfoUnit) :
